@@ -516,5 +516,5 @@ def run(chk):
     c13.rule_copy(chk)  # what a destination received is a private copy: a dict reused by a later emission cannot turn a delivered message into a duplicate
     from . import c08
     c08.rule_fanout(chk)   # what a destination that accepted every message observes while others fail
-    c08.rule_report(chk)
+    c08.rule_report_path(chk)
     c08.rule_report_logger(chk)
